@@ -33,6 +33,12 @@ def configs(tier, seed):
     cfgs.append({"kind": "wb_eq", "feats": subsets})
     for k in ("mux", "csr_decoder", "csr_bridge", "event_monitor", "gpio", "wb_csr_bridge", "wb_decoder", "sram", "arbiter"):
         cfgs.append({"kind": "connect", "what": k})
+    # the components that take a feature set: every legal spelling of it (list, one-shot generator, frozenset of Feature members,
+    # mixed tuple) must give the port the signature wishbone.Signature builds from the same parameters
+    for k in ("wb_decoder", "arbiter"):
+        for spell in (1, 2, 3):
+            for feats in (ALLF, ["err", "stall"], ["lock"], []):
+                cfgs.append({"kind": "connect", "what": k, "spell": spell, "feats": feats})
     return cfgs
 
 
@@ -46,6 +52,20 @@ def flat(sig):
         else:
             out.append((name, m.flow.name, "sig"))
     return sorted(out)
+
+
+def spelled(cfg):
+    """the feature set of the configuration in one of its legal spellings"""
+    from amaranth_soc import wishbone
+    feats = list(cfg.get("feats", ALLF))
+    k = cfg.get("spell", 0)
+    if k == 1:
+        return (f for f in feats)
+    if k == 2:
+        return frozenset(wishbone.Feature(f) for f in feats)
+    if k == 3:
+        return tuple(wishbone.Feature(f) if i % 2 else f for i, f in enumerate(feats))
+    return feats
 
 
 def again(x):
@@ -231,18 +251,25 @@ def check_config(ctx, cfg):
                 from amaranth_soc.csr.wishbone import WishboneCSRBridge
                 comp = WishboneCSRBridge(bus, data_width=32); port = comp.wb_bus
             elif what == "wb_decoder":
-                comp = wishbone.Decoder(addr_width=6, data_width=32, granularity=8, features=ALLF); port = comp.bus
+                comp = wishbone.Decoder(addr_width=6, data_width=32, granularity=8, features=spelled(cfg)); port = comp.bus
+                want_sig = wishbone.Signature(addr_width=6, data_width=32, granularity=8, features=cfg.get("feats", ALLF))
+                if port.signature != want_sig or port.features != want_sig.features:
+                    bad["connects"].append(f"wb_decoder(features spelled #{cfg.get('spell', 0)} {cfg.get('feats', ALLF)}): port signature {port.signature!r} is not {want_sig!r}")
             else:
                 from amaranth_soc.wishbone.sram import WishboneSRAM
                 comp = WishboneSRAM(size=16, data_width=32, granularity=8); port = comp.wb_bus
             ini = wishbone.Interface(addr_width=port.addr_width, data_width=port.data_width, granularity=port.granularity,
-                                     features=port.features, path=("ini",))
+                                     features=cfg.get("feats", port.features) if what == "wb_decoder" else port.features, path=("ini",))
             m.submodules.c = comp
             connect(m, ini, port)
         else:
-            comp = wishbone.Arbiter(addr_width=4, data_width=32, granularity=8, features=ALLF)
-            comp.add(wishbone.Interface(addr_width=4, data_width=32, granularity=8, features=ALLF, path=("i0",)))
-            tgt = wishbone.Interface(addr_width=4, data_width=32, granularity=8, features=ALLF, path=("tgt",))
+            fts = cfg.get("feats", ALLF)
+            comp = wishbone.Arbiter(addr_width=4, data_width=32, granularity=8, features=spelled(cfg))
+            comp.add(wishbone.Interface(addr_width=4, data_width=32, granularity=8, features=fts, path=("i0",)))
+            tgt = wishbone.Interface(addr_width=4, data_width=32, granularity=8, features=fts, path=("tgt",))
+            want_sig = wishbone.Signature(addr_width=4, data_width=32, granularity=8, features=fts)
+            if comp.bus.signature != want_sig:
+                bad["connects"].append(f"arbiter(features spelled #{cfg.get('spell', 0)} {fts}): bus signature {comp.bus.signature!r} is not {want_sig!r}")
             m.submodules.c = comp
             connect(m, comp.bus, flipped(tgt))
         Fragment.get(m, None)
